@@ -52,6 +52,16 @@ Theorem C03_omitted_is_negated_sum : forall s t st u,
 Proof. exact omitted_pointwise. Qed.
 Print Assumptions C03_omitted_is_negated_sum.
 
+(* the balancing value of a posting with a TOTAL cost / lot price (`@@ T`, `{{T}}`) is |T| with
+   the sign of the posting's amount: a minus sign written on the total changes nothing
+   (Exchange::exchange = abs.with_sign_of(amount)), so the omitted amount deduced from it is
+   the same for `-8 X @@ -1,000 USD` and `-8 X @@ 1,000 USD` *)
+Theorem C03_written_sign_of_total_ignored : forall c t v,
+  xchg_apply (XT c (- t)) v = xchg_apply (XT c t) v
+  /\ snd (xchg_apply (XT c t) v) = if Qclt_le_dec v 0 then - Qcabs.Qcabs t else Qcabs.Qcabs t.
+Proof. exact total_written_sign_ignored. Qed.
+Print Assumptions C03_written_sign_of_total_ignored.
+
 (* commodity by commodity the deduced amount is the negated residual *)
 Theorem C03_deduced_pointwise : forall a c, a_get (a_neg a) c = - a_get a c.
 Proof. exact a_get_neg. Qed.
